@@ -460,7 +460,21 @@ impl RawGen {
             ),
             "fresh_name" => {
                 let id = self.id();
-                let n = format!("\\zq{}", name_from(id.wrapping_mul(7919)));
+                let n = match rng.below(8) {
+                    // control symbols (one character that is not a letter, also beyond ASCII / the BMP)
+                    0 => ["\\+", "\\1", "\\\u{e9}", "\\\u{1d538}", "\\.", "\\\u{3bb}"][rng.below(6)].to_string(),
+                    // a very long name
+                    1 => format!("\\zl{}{}", "x".repeat([100, 255, 256, 300][rng.below(4)]), name_from(id)),
+                    // names that differ in case only
+                    2 => format!("\\zQ{}", name_from(id % 7).to_uppercase()),
+                    3 => format!("\\zQ{}", name_from(id % 7)),
+                    _ => format!("\\zq{}", name_from(id.wrapping_mul(7919))),
+                };
+                if rng.chance(1, 8) {
+                    // interned but never defined: a name that only ever appears on the right of \let
+                    self.reach.push("name_interned_but_undefined");
+                    return Some(format!("\\let\\zqtmp={n}u "));
+                }
                 if rng.chance(1, 2) || self.fresh.is_empty() {
                     self.fresh.push(n.clone());
                     self.reach.push("fresh_control_sequence_interned");
